@@ -1,8 +1,12 @@
 //! Conformance harness for dvb_gse_rust: drives the real crate, records one
 //! ndjson event per public call.  The recorded traces are validated by TLC
 //! against /verif/spec/Trace*.tla; there is no oracle in this program.
+mod craft;
 mod drv_chains;
+mod drv_labels;
 mod drv_lattice;
+mod drv_rx;
+mod drv_tables;
 mod rx;
 mod tx;
 mod util;
@@ -45,11 +49,20 @@ fn main() {
         }
         i += 1;
     }
-    let _ = &scn;
     let mut out = Out::new(&path, only);
     match driver.as_str() {
         "lattice" => drv_lattice::run(&mut out, seed, thorough),
         "chains" => drv_chains::run(&mut out, seed, thorough),
+        "fuzzrx" => drv_rx::fuzzrx(&mut out, seed, thorough),
+        "faults" => drv_rx::faults(&mut out, seed, thorough),
+        "interleave" => drv_rx::interleave(&mut out, seed, thorough),
+        "frames" => drv_rx::frames(&mut out, seed, thorough),
+        "labels" => drv_labels::run(&mut out, seed, thorough),
+        "hdr" => drv_tables::hdr(&mut out),
+        "extnew" => drv_tables::extnew(&mut out),
+        "crc" => drv_tables::crc(&mut out, seed, thorough),
+        "utils" => drv_tables::utils(&mut out, seed, thorough),
+        "memops" => drv_tables::memops(&mut out, seed, thorough, scn.as_deref()),
         _ => {
             eprintln!("unknown driver {}", driver);
             std::process::exit(2);
